@@ -70,6 +70,17 @@ def run_world(aiu, w, prefix=(), expect=None):
             return gen()
         if k == 'iter':
             return iter(list(vals))
+        if k == 'citer':            # class-based Iterator (not a generator) whose steps block
+            class CIter:
+                def __init__(self):
+                    self._g = gen()
+
+                def __iter__(self):
+                    return self
+
+                def __next__(self):
+                    return next(self._g)
+            return CIter()
         if k == 'reiter':           # re-iterable (not an Iterator) whose iteration may fail part-way
             class ReIterable:
                 def __iter__(self):
@@ -170,7 +181,7 @@ def check(x, w):
     if obs['live']:
         bad.append(('helper_thread_left_running', f'{obs["live"]} alive when iteration finished'))
     # the loop must keep ticking while the producer thread is blocked in next()
-    if w['api'] == 'async' and w['kind'] in ('gen',) and w['step']:
+    if w['api'] == 'async' and w['kind'] in ('gen', 'citer') and w['step']:
         if obs['loop_thread'] in obs['prod_threads']:
             bad.append(('iterator_runs_on_loop_thread', 'the synchronous iterator was advanced by the loop thread'))
         for a, b in obs['prod_sleeps']:
@@ -187,7 +198,7 @@ def worlds(tier):
     out = []
     nmax = 4 if q else 6
     for api in ('async', 'sync'):
-        kinds = ('list', 'range', 'gen', 'iter', 'reiter') if api == 'async' else ('agen',)
+        kinds = ('list', 'range', 'gen', 'iter', 'reiter', 'citer') if api == 'async' else ('agen',)
         for kind in kinds:
             for n in range(0, nmax + 1):
                 fps = [None] + list(range(0, n + 1))
@@ -196,13 +207,13 @@ def worlds(tier):
                 if kind == 'reiter':
                     fps = list(range(0, n + 1))
                 for fp in fps:
-                    for step in ((0.0, D) if kind in ('gen', 'agen') else (0.0,)):
+                    for step in ((0.0, D) if kind in ('gen', 'agen', 'citer') else (0.0,)):
                         for pause in (0.0, D) if n and kind in ('gen', 'agen') else (0.0,):
                             if q and n >= 4 and (step and pause):
                                 continue
                             for own in ((False, True) if api == 'sync' and n <= 1 else (False,)):
                                 w = dict(api=api, kind=kind, n=n, failpos=fp, step=step, pause=pause, own_loop=own)
-                                threaded = kind in ('gen', 'iter', 'agen')
+                                threaded = kind in ('gen', 'iter', 'agen', 'citer')
                                 pb = (3 if n <= 2 else 2) if q else (4 if n <= 2 else 3)
                                 out.append((w, pb if threaded else 0))
     for n in (1, 2, 3):
